@@ -20,7 +20,10 @@ CFG = {
                    "GeoProofs/Lemmas/C02YAreal.lean", "GeoProofs/Lemmas/C02YPairs.lean", "GeoProofs/Lemmas/C02YMask.lean",
                    "GeoProofs/Lemmas/C02YContains.lean", "GeoProofs/Lemmas/C02YCoords.lean", "GeoProofs/Lemmas/C02YPoint.lean",
                    "GeoProofs/Lemmas/C02YPointSpec.lean", "GeoProofs/Lemmas/C02YAvoid.lean", "GeoProofs/Lemmas/C02YLinear.lean",
-                   "GeoProofs/Lemmas/C02YRectWind.lean", "GeoProofs/Lemmas/C02YRect.lean", "GeoProofs/Lemmas/C02YLoop.lean"],
+                   "GeoProofs/Lemmas/C02YRectWind.lean", "GeoProofs/Lemmas/C02YRect.lean", "GeoProofs/Lemmas/C02YLoop.lean",
+                   "GeoProofs/Lemmas/C02ZChain.lean", "GeoProofs/Lemmas/C02ZTrace.lean", "GeoProofs/Lemmas/C02ZSweep.lean",
+                   "GeoProofs/Lemmas/C02ZLoop.lean", "GeoProofs/Lemmas/C02ZSimple.lean", "GeoProofs/Lemmas/C02ZLs.lean",
+                   "GeoProofs/Lemmas/C02ZPairs.lean", "GeoProofs/Lemmas/C02ZRectE.lean", "GeoProofs/Lemmas/C02ZRectPoly.lean"],
     "rule": "2/3 of the cases: ordered pairs (A, B) over all 10 types (both through the Geometry enum) from one shared grid, B drawn independently or "
             "from A's own vertices / edge midpoints / edges (so containment is frequent): intersects(A,B), intersects(B,A), contains(A,B), is_within(A,B); "
             "1/3: coordinate_position(G, p) with p a vertex, an edge midpoint or a half-grid point. Three-way comparison per case: implementation, "
@@ -34,7 +37,10 @@ CFG = {
         "partial_cmp().unwrap() total (panics are observed by the harness, not modelled), debug_assert! compiled out (release build), "
         "Vec indexing only under a dominating length guard, method resolution by the receiver's static type chosen per job",
     ],
-    "assumptions": ["valid operands (GeoModel/Valid.lean); grid coordinates; degenerate (zero-area) Rect/Triangle operands are outside the stream"],
+    "assumptions": ["valid operands (GeoModel/Valid.lean); grid coordinates; degenerate (zero-area) Rect/Triangle operands are outside the stream",
+                    "contains, three hand-written pairs (C02Z): LineString x Line / LineString x LineString with a CLOSED first operand whose closure point is strictly inside a (proper) "
+                    "query segment - second pass of the truncation loop - and Rect x Polygon with every exterior coordinate on the boundary of the Rect - needs 'valid polygon => signed area != 0' - "
+                    "are decided by the three-way correspondence, not by proof (hypotheses hnw / harea of the ..._partial theorems)"],
 }
 
 MANIFEST = {
@@ -113,8 +119,24 @@ MANIFEST = {
             "Rect::to_polygon about a point perturbed by the symbolic infinitesimal (rect_windingE) - so a face sample inside the inner Rect is inside the outer one and the sample above the "
             "inner bottom edge is interior to both. (d) LineString x Line: the specification side for ANY line string (isContains_lineString_line: mask <=> every point of the segment is on the "
             "line string), so the equality is reduced to that statement about the two-pass truncation loop (containsM_lineString_line_partial), and one half of it is proved: the loop has no false "
-            "positive (containsM_lineString_line_sound; invariant of cutStep: every point of the query is on the line string or on what is left of the query). Open (correspondence only): the converse "
-            "for LineString x Line (two passes always suffice on a simple line string), LineString x LineString, Rect x Polygon. "
+            "positive (containsM_lineString_line_sound; invariant of cutStep: every point of the query is on the line string or on what is left of the query). "
+            "C02Z (the last three hand-written contains pairs): (e) LineString x Line, completeness of the truncation loop (lsContainsLine_iff_partial): in the parameter of the query line every "
+            "segment of the line string has an empty trace or a closed interval whose end points are the segment's end points (trace_cases); one iteration of cutStep leaves the query alone, cuts it at "
+            "an end point of the segment or returns true, and what is left of the query is covered by the LATER segments - finitely many segments are a closed set (covered_plus / covered_minus), and a "
+            "segment lying in the middle of the query is impossible on a simple path (SimpleChain: a segment meets a later one only in its own end point or in the closure point; derived from "
+            "lineStringSimple through dedupConsecutive / allPairs by simpleChain_of_simple, zero-length segments of the raw coordinate list included) - so the FIRST pass answers true (sweep, "
+            "lsContainsLine_complete) for every valid line string and non-degenerate query EXCEPT: closed line string whose first (= last) coordinate lies strictly inside the query (noWrap = false; the "
+            "first edge continues the last one and the query runs through the closure point - there only the second pass, up to the first cut segment, finishes; not proved, "
+            "lineString_line_wrap_witness shows the class is inhabited and the code right on the witness). Hence LineString x Line = mask outside that class (containsM_lineString_line_noWrap_partial; "
+            "all open line strings: containsM_lineString_line_open_partial). (f) LineString x LineString: reduced to the loop for all valid operands (containsM_lineString_lineString_loop_partial: a valid "
+            "argument has a proper segment, every coordinate is an end point of a proper segment so the skipped zero-length segments add no point - fix f55ddeac -, a proper segment carries a point interior "
+            "to both) and = mask when no proper segment of the argument runs through the closure point of a closed first operand (containsM_lineString_lineString_noWrap_partial). (g) Rect x Polygon "
+            "(containsM_rect_polygon_partial; Rect of positive width and height, polygon empty or OGC-valid, holes included): an exterior coordinate outside the Rect is a vertex of the arrangement located in "
+            "B and outside A; otherwise every point and every face sample located in the polygon is in the Rect - windingE_in_box: the winding number of a closed ring about a point perturbed by the symbolic "
+            "infinitesimal vanishes unless the point is in the half-open coordinate box of the ring in the lexicographic order (infinitesimal versions of the four bounding-box lemmas, the left one by "
+            "telescoping) - and a face sample beside a shell edge is interior to both; full strength when some exterior coordinate is strictly inside the Rect (containsM_rect_polygon_inner_partial), and "
+            "under the hypothesis 'an OGC-valid polygon has non-zero signed area' when all of them are on the boundary of the Rect (the code's signed_area().is_zero() test; shoelace sum of a simple ring "
+            "nonzero is not proved). "
             "Each generated case is compared three ways (implementation = model, implementation = specification). "
             "Translator ties (TRAN): the accumulator model is no longer only hand-written — ringPos_eq_source (coord_pos_relative_to_ring whole: prologue, "
             "winding loop with early return, final test), calculateCoordinatePosition_eq_source (the calculate_coordinate_position bodies of Coord, Point, "
@@ -128,7 +150,8 @@ MANIFEST = {
             "Open: K9 coordinate_position(MultiLineString) at an end point shared by an even number of members (an existing unit test pins that behaviour). "
             "Proved vs sampled (C02X + C02Y, table in GeoProofs/Lemmas/C02XTable.lean): intersects = mask is PROVED for all inputs of the validity domain on all 100 ordered type pairs "
             "(collections with areal members included); contains = mask is PROVED for X x Point (10), Point x X (9), Line x Line, Line x LineString, MultiPolygon x MultiPoint, Rect x Rect "
-            "(non-degenerate; K7 witness for the degenerate case), holds by definition on the 74 pairs that go through relate, and is SAMPLED only on LineString x Line, "
-            "LineString x LineString (specification side proved, the truncation loop not) and Rect x Polygon; coordinate_position = locate is PROVED for all ten types and collections (K9 excluded). "
+            "(non-degenerate; K7 witness for the degenerate case), holds by definition on the 74 pairs that go through relate, and (C02Z) is PROVED outside one named input class each on LineString x Line and "
+            "LineString x LineString (excluded, sampled only: closed line string with the query through its closure point - the second pass of the truncation loop) and Rect x Polygon (excluded, "
+            "proved only modulo 'valid => signed area != 0': every exterior coordinate on the boundary of the Rect); coordinate_position = locate is PROVED for all ten types and collections (K9 excluded). "
             "The areal x areal proof imports the C07X lemmas (nested_rings / exterior_rings) - the same connectedness argument serves C07.",
 }
